@@ -242,6 +242,53 @@ num = [0, 10 ** 20, 1.5e300, 1e-7, 0.1 + 0.2, 2j, -3, 0x1F, 0b101, 1_000]
 spec = [f'{q!r}', f'{dq!s:>12}', f'{len(both):03d}', f'{nl!a}', f'{num[2]:.3e}', f'{"nested" + q}']
 print(q, dq, both, repr(nl), raw, b, ascii(u), num, spec)
 ''',
+    "method_frames": '''
+class A:
+    def who(self):
+        return "A"
+    @classmethod
+    def make(cls):
+        return "A.make"
+    @property
+    def p(self):
+        return "A.p"
+class B(A):
+    def who(self):
+        out = []
+        for i in range(2):
+            out.append(super().who() + str(i))
+        n = 0
+        while n < 1:
+            n += 1
+            out.append(super().who())
+            if n:
+                out.append(__class__.__name__)
+        else:
+            out.append(super().p)
+        return out
+    @classmethod
+    def make(cls):
+        r = []
+        for _ in range(1):
+            r.append(super().make())
+        return r
+    @property
+    def p(self):
+        k = 0
+        while True:
+            k += 1
+            if k > 1:
+                return super().p + "!"
+def factory(base, suffix):
+    class C(base):
+        def who(self):
+            res = []
+            for s in (suffix, suffix * 2):
+                res.append((super().who(), s, C.__name__))
+            return res
+    return C
+print(B().who(), B.make(), B().p, factory(B, "x")().who()[1][1:])
+''',
     "class_body_scope": '''
 x = 'global'
 def f():
